@@ -5,6 +5,7 @@ import (
 	"github.com/flowmatters/openwater-core/io"
 	"github.com/flowmatters/openwater-core/sim"
 	"github.com/flowmatters/openwater-core/zzverif/vsym"
+	"gonum.org/v1/hdf5"
 )
 
 // H_C07_run_simulation: the real run_simulation on a three-generation graph held in the HDF5
@@ -37,6 +38,20 @@ func c07loop(extra bool) {
 	run_simulation([]string{fn, out})
 	vsym.LogStop()
 	vsym.Reach("simulated")
+	// every generation written exactly once: one block write per written dataset and non-empty
+	// generation (Simhyd: outputs + states in generations 0 and 1; Muskingum: outputs + states
+	// (+ inputs in the one-model graph) per non-empty generation)
+	blockWrites := 0
+	for _, c := range hdf5.Calls {
+		if c == "WriteSubset" {
+			blockWrites++
+		}
+	}
+	wantWrites := 7
+	if extra {
+		wantWrites = 8
+	}
+	vsym.Assert(blockWrites == wantWrites, "every-generation-written-exactly-once")
 	// every scheduling with the same send/receive and lock pairing: conflicting accesses of the
 	// main loop, the per-model run goroutines, the per-cell goroutines inside Run and the writer
 	// goroutines are ordered by go / channel / lock edges
